@@ -6,8 +6,9 @@ Tie to /repo on every run:
                  exps_int, SsbOpParamFixedPoint.from_str, parse_position_marker_arg, ...) vs the Lean functions, exactly;
   e2e channel    real op lists carrying the value -> both real decompilers, every printing context and nesting depth
                  -> both real compilers -> parameter compared field by field with the input (PROPERTY ORACLE) and with
-                 the model's prediction;
-  parse side     literal spellings compiled by the real compilers vs an independent reading of docs/language_spec.rst.
+                 the model's prediction; single substituted values (any value, classified at the indent the CONTEXT
+                 prescribes, ctx_indent) and whole parameter lists inside the guards (several language strings per op, ...);
+  parse side    literal spellings compiled by the real compilers vs an independent reading of docs/language_spec.rst.
 A failing value is classified by a predicate on the VALUE (narrow kinds below); kinds are only used to match
 known_findings.jsonl, so a failure on a value outside every listed class is reported as a violation."""
 from __future__ import annotations
@@ -26,6 +27,8 @@ THEOREMS = ["ESV.C04." + t for t in [
     # print -> lex -> read, all values inside the guards, all indents, both quote preferences
     "read_repr_single", "tok_single_exact", "read_repr_fallback", "tok_fallback_exact", "read_repr_multi", "tok_multi_exact",
     "read_repr_string", "const_string_roundtrip", "langstring_roundtrip",
+    # printing contexts: the indent (hence the guard) each context prescribes
+    "guard_indent_pos", "ctxIndent_pos", "const_string_roundtrip_ctx", "langstring_value_roundtrip_ctx", "switch_header_counterexample",
     # the excluded classes (concrete witnesses) and the exactness examples
     "trailing_backslash_counterexample", "backslash_before_delimiting_quote_counterexample",
     "backslash_before_other_quote_counterexample", "backslash_n_counterexample", "cr_ff_counterexample", "backslash_elsewhere_ok",
@@ -269,13 +272,35 @@ def gen_param(r: random.Random, kind: str) -> dict:
 
 
 CTX_FOR = {
-    "int": ["arg", "arg2", "case", "dmode", "switchhdr", "casetext_key", "menu2", "casevalue"],
-    "fixed": ["arg", "arg2"],
-    "const": ["arg", "arg2", "case", "switchhdr", "menu2", "casevalue"],
-    "str": ["arg", "arg2", "menu", "casetext", "defaulttext", "switchhdr"],
-    "lang": ["arg", "arg2", "casetext", "defaulttext"],
-    "pos": ["arg", "arg2"],
+    "int": ["arg", "arg2", "inlinectx", "case", "dmode", "switchhdr", "casetext_key", "menu2", "casevalue"],
+    "fixed": ["arg", "arg2", "inlinectx"],
+    "const": ["arg", "arg2", "inlinectx", "case", "switchhdr", "menu2", "casevalue"],
+    "str": ["arg", "arg2", "inlinectx", "menu", "casetext", "defaulttext", "switchhdr"],
+    "lang": ["arg", "arg2", "inlinectx", "menu", "casetext", "defaulttext", "switchhdr"],
+    "pos": ["arg", "arg2", "inlinectx"],
 }
+
+# The indent a printing CONTEXT prescribes for a string parameter (own reading of the layout, not taken from the printer):
+# the closing delimiter of a triple-quoted literal lines up with the line that carries the statement / header, i.e. the
+# number of blocks around that line: routine body 1, every enclosing block +1; `case menu(...)` sits inside the braces of
+# its switch (+1); a message-switch text sits inside the braces (+1) below its `case k:` (+1).  SsbScript is flat.
+# One context is at indent 0 on the unchanged tree: the header `switch ( Op(<string>, 1, 2) )` never sets `.indent`
+# (recorded as known finding multiline_trailing_blank_line_indent0); it is prescribed as 0 here so that this class
+# stays confined to that context -- a value with a blank last line that is lost in any OTHER context is unclassified.
+LEAN_CTX = {"arg": "opArg", "arg2": "opArg", "inlinectx": "opArg", "menu": "menuHeader", "casetext": "msgText",
+            "defaulttext": "msgText", "switchhdr": "switchHeader"}
+
+
+def ctx_indent(ctx: str, depth: int, dec: str) -> int | None:
+    if ctx not in LEAN_CTX:
+        return None
+    if dec == "ssbs":
+        return 1
+    return {"opArg": depth + 1, "menuHeader": depth + 2, "msgText": depth + 3, "switchHeader": 0}[LEAN_CTX[ctx]]
+
+
+def lean_ctx(ctx: str, dec: str) -> str:
+    return "ssbsArg" if dec == "ssbs" else LEAN_CTX[ctx]
 
 
 # ---------------------------------------------------------------------------------------------------------------------
@@ -316,9 +341,155 @@ def oracle_e2e(case: dict, res: dict) -> tuple[str, str] | None:
             fail = f"came back as {json.dumps(res.get('back'), ensure_ascii=True)[:160]}, expected {desc}"
     if fail is None:
         return None
-    kinds = param_defects(p, res.get("indent"), case["dec"])
+    # the defect class is decided by the VALUE at the indent the CONTEXT prescribes (never by the indent the printer
+    # happened to use: a context printed at a wrong indent must show up as a failure of a value inside the guards)
+    kinds = param_defects(p, ctx_indent(case["ctx"], case["depth"], case["dec"]), case["dec"])
     kind = kinds[0] if kinds else f"unclassified_{p['t']}_{case['ctx']}"
     return kind, f"{json.dumps(p, ensure_ascii=True)[:200]} printed in {where}: {fail}"
+
+
+# ---------------------------------------------------------------------------------------------------------------------
+# whole parameter lists: several parameters per op, several ops per context (values inside the guards only, so that
+# every failure is a failure of the property on a value it promises to keep)
+# ---------------------------------------------------------------------------------------------------------------------
+MCTX_OPS = {
+    # context -> target ops in op order: (name, free arity?)
+    "arg": [("zzprobe", True)],
+    "inlinectx": [("zzprobe", True)],
+    "switchhdr": [("ProcessSpecial", True)],
+    "menu": [("CaseMenu", False), ("CaseMenu", False)],
+    "casetext": [("CaseText", False), ("CaseText", False), ("DefaultText", False)],
+}
+MCTX_SINGLE = {"arg": "arg", "inlinectx": "inlinectx", "switchhdr": "switchhdr", "menu": "menu", "casetext": "casetext"}
+LANGS = ["english", "french", "german", "italian", "spanish", "japanese", "_x1"]
+PLAIN = ["Left", "Right", "Rechts", "Yes", "No", "it's", 'say "x"', "a b ", " lead", "x\ny", "x\n   ", "x\n", "two\n\nlines", "  a\nb  ",
+         "ends\n ", "\nstarts", "'''\nx", '"""\nx\n', "é\n日"]
+
+
+def gen_clean_string(r: random.Random, indent: int, single: bool) -> str:
+    """a string inside the guard for (indent, quote preference)"""
+    for _ in range(60):
+        s = r.choice(PLAIN) if r.random() < 0.35 else gen_string(r)
+        if not string_defects(s, indent, single):
+            return s
+    return "x"
+
+
+def gen_clean_param(r: random.Random, kind: str, indent: int, dec: str) -> dict:
+    if kind == "str":
+        return {"t": "str", "v": gen_clean_string(r, indent, True)}
+    for _ in range(60):
+        p = gen_param(r, kind)
+        if not param_defects(p, indent, dec):
+            return p
+    return {"t": "int", "v": 1}
+
+
+def gen_lang_group(r: random.Random, k: int, indent: int) -> list[dict]:
+    """k language strings whose language sets are equal / overlapping / nested / disjoint; the values of one language
+    differ between the strings (a value taken from the wrong string is then visible)"""
+    mode = r.choice(["same", "overlap", "overlap", "nested", "disjoint", "random"])
+    pool = r.sample(LANGS, len(LANGS))
+    sets: list[list[str]] = []
+    if mode == "same":
+        base = pool[:r.choice([1, 2, 3])]
+        sets = [r.sample(base, len(base)) for _ in range(k)]
+    elif mode == "overlap":
+        common = pool[:r.choice([1, 2])]
+        rest = pool[len(common):]
+        for i in range(k):
+            own = rest[i:i + r.choice([0, 1, 1])]
+            ls = common + own
+            sets.append(r.sample(ls, len(ls)))
+    elif mode == "nested":
+        for i in range(k):
+            sets.append(pool[:i + 1] if r.random() < 0.5 else pool[:k - i])
+    elif mode == "disjoint":
+        for i in range(k):
+            sets.append(pool[2 * i:2 * i + r.choice([1, 2])])
+    else:
+        sets = [r.sample(LANGS, r.choice([1, 2, 4])) for _ in range(k)]
+    used: dict[str, set] = {}
+    out = []
+    for ls in sets:
+        items = []
+        for l in ls:
+            v = gen_clean_string(r, indent + 1, False)
+            for _ in range(20):
+                if v not in used.setdefault(l, set()):
+                    break
+                v = gen_clean_string(r, indent + 1, False)
+            used[l].add(v)
+            items.append([l, v])
+        out.append({"t": "lang", "v": items})
+    return out
+
+
+def gen_texts(r: random.Random, n: int, indent: int, dec: str) -> list[dict]:
+    """n text parameters: a group of language strings, the rest constant strings, in random order"""
+    k = min(n, r.choice([2, 2, 3, 3, 1, 0]))
+    ps = gen_lang_group(r, k, indent) + [gen_clean_param(r, "str", indent, dec) for _ in range(n - k)]
+    r.shuffle(ps)
+    return ps
+
+
+def gen_ops_case(r: random.Random, ctx: str, depth: int, dec: str) -> dict:
+    indent = ctx_indent(MCTX_SINGLE[ctx], depth, dec) or 0
+    if ctx in ("arg", "inlinectx", "switchhdr"):
+        n_text = r.choice([2, 2, 3, 3, 4, 1])
+        ps = gen_texts(r, n_text, indent, dec)
+        extras = [gen_clean_param(r, r.choice(["fixed", "pos", "int", "const", "fixed", "pos"]), indent, dec) for _ in range(r.choice([0, 1, 2, 3]))]
+        ps += extras
+        r.shuffle(ps)
+        ops = [ps]
+    elif ctx == "menu":
+        a, b = gen_texts(r, 2, indent, dec)
+        ops = [[a], [b]]
+    else:
+        a, b, c = gen_texts(r, 3, indent, dec)
+        key = lambda: gen_clean_param(r, r.choice(["int", "const"]), indent, dec)  # noqa: E731
+        ops = [[key(), a], [key(), b], [c]]
+    return {"ops": ops, "ctx": ctx, "depth": depth, "dec": dec}
+
+
+def oracle_ops(case: dict, res: dict) -> tuple[str, str] | None:
+    """property oracle on a whole-parameter-list case: every parameter of every target op comes back as it went in"""
+    ctx, depth, dec = case["ctx"], case["depth"], case["dec"]
+    if "setup_err" in res:
+        return None
+    where = f"{ctx}@depth{depth}/{dec}"
+    fail = None
+    culprit = None
+    if "dec_err" in res:
+        fail = f"decompiler raised {res['dec_err']}"
+    elif "comp_err" in res:
+        fail = f"printed text does not compile back: {res['comp_err']}"
+    else:
+        names = [n for n, _f in MCTX_OPS[ctx]]
+        if res.get("back_names") != names:
+            fail = f"target ops after recompiling are {res.get('back_names')}, expected {names}"
+        else:
+            for i, ((_n, free), plist, blist) in enumerate(zip(MCTX_OPS[ctx], case["ops"], res["back"])):
+                if (len(blist) != len(plist)) if free else (len(blist) < len(plist)):
+                    fail = f"op {i} came back with {len(blist)} parameters, {len(plist)} went in"
+                    break
+                for j, (p, b) in enumerate(zip(plist, blist)):
+                    exp, desc = expected_back({"param": p, "ctx": ctx, "dec": dec}, res["printed0"][i][j])
+                    if b != exp:
+                        fail = (f"parameter {j} of op {i} ({json.dumps(p, ensure_ascii=True)[:160]}) came back as "
+                                f"{json.dumps(b, ensure_ascii=True)[:160]}, expected {desc}")
+                        culprit = p
+                        break
+                if fail:
+                    break
+    if fail is None:
+        return None
+    indent = ctx_indent(MCTX_SINGLE[ctx], depth, dec)
+    kinds: list[str] = []
+    for p in ([culprit] if culprit is not None else [p for plist in case["ops"] for p in plist]):
+        kinds += param_defects(p, indent, dec)
+    kind = kinds[0] if kinds else f"unclassified_oplist_{ctx}"
+    return kind, f"parameter lists {json.dumps(case['ops'], ensure_ascii=True)[:300]} printed in {where}: {fail}"
 
 
 # ---------------------------------------------------------------------------------------------------------------------
@@ -613,11 +784,24 @@ def run(run: core.Run) -> int:
         # ---------------- end-to-end: real decompilers + compilers, property oracle -----------------------------
         n_e2e = 7000 if quick else 60000
         e2e: list[dict] = []
-        seed_vals = [{"t": "str", "v": s} for s in CORPUS_STRINGS] + [{"t": "lang", "v": [["english", s]]} for s in CORPUS_STRINGS[:30]]
-        for p in seed_vals:
-            for ctx in (["arg", "switchhdr", "casetext"] if p["t"] == "str" else ["arg"]):
+        # fixed witnesses: every corpus string in every string context of both routes; the values whose last line is blank
+        # (inside GuardM exactly when the context's indent is not 0) also at two deeper nesting levels
+        blank_last = [s for s in CORPUS_STRINGS if "\n" in s and s.split("\n")[-1].strip(" ") == ""] + ["x\n   ", "x\n", "'''\nx\n "]
+        for s in CORPUS_STRINGS:
+            for ctx in CTX_FOR["str"]:
+                if ctx == "arg2":
+                    continue
                 for dec in ("exps", "ssbs"):
-                    e2e.append({"param": p, "ctx": ctx, "depth": 0, "dec": dec})
+                    e2e.append({"param": {"t": "str", "v": s}, "ctx": ctx, "depth": 0, "dec": dec})
+        for s in blank_last:
+            for ctx in CTX_FOR["str"]:
+                for depth in (1, 3):
+                    e2e.append({"param": {"t": "str", "v": s}, "ctx": ctx, "depth": depth, "dec": "exps"})
+                    e2e.append({"param": {"t": "lang", "v": [["english", s], ["german", "x" + s]]}, "ctx": ctx, "depth": depth, "dec": "exps"})
+        for s in CORPUS_STRINGS[:30]:
+            for ctx in ("arg", "menu", "casetext", "switchhdr"):
+                for dec in ("exps", "ssbs"):
+                    e2e.append({"param": {"t": "lang", "v": [["english", s]]}, "ctx": ctx, "depth": 0, "dec": dec})
         kinds_w = ["str"] * 8 + ["lang"] * 3 + ["int"] * 2 + ["fixed"] * 2 + ["const"] + ["pos"] * 2
         for _ in range(n_e2e):
             kind = r.choice(kinds_w)
@@ -636,8 +820,15 @@ def run(run: core.Run) -> int:
                 tie("worker/setup failure in end-to-end case", {"case": c, "impl": res})
                 continue
             v = oracle_e2e(c, res)
+            pi = ctx_indent(c["ctx"], c["depth"], c["dec"])
+            if pi is not None and res.get("indent") is not None and res["indent"] != pi:
+                stats["e2e"]["indent_differs_from_context"] = stats["e2e"].get("indent_differs_from_context", 0) + 1
+                if not v:
+                    tie("correspondence C04/context: the decompiler prints a string at another indent than the context prescribes (model ctxIndent)",
+                        {"channel": "ctx_indent", "case": c, "printed_at": res["indent"], "prescribed": pi})
             if v:
-                viol(v[0], v[1], {"channel": "e2e", "case": c, "impl": {k: res.get(k) for k in ("printed", "indent", "back", "comp_err", "dec_err")}})
+                viol(v[0], v[1], {"channel": "e2e", "case": c, "impl": {k: res.get(k) for k in ("printed", "indent", "back", "comp_err", "dec_err")},
+                                  "context_indent": pi})
             elif param_defects(c["param"], res.get("indent"), c["dec"]):
                 stats["e2e"]["defect_class_but_roundtrips"] = stats["e2e"].get("defect_class_but_roundtrips", 0) + 1
                 if stats["e2e"]["defect_class_but_roundtrips"] <= 3:
@@ -669,6 +860,90 @@ def run(run: core.Run) -> int:
                     elif m.get("exact") and "back" in res and res["back"].get("t") == "lang" and len(res["back"]["v"]) == len(c["param"]["v"]) \
                             and all(mm.get("exact") for (ii, _jj), mm in zip(lidx, lrep) if ii == i) and res["back"]["v"][j][1] != m.get("v"):
                         tie("correspondence C04/e2e: recompiled language string differs from the model's prediction", {"channel": "e2e", "case": c, "item": j, "impl": res.get("back"), "model": m})
+
+        # ---------------- printing contexts: the harness' table vs the Lean model ---------------------------------------
+        if drv:
+            creq = []
+            for ctx in LEAN_CTX:
+                for dec in ("exps", "ssbs"):
+                    for depth in range(5):
+                        for s in ("x\n   ", "a\n", " a\n b", "a\nb"):
+                            creq.append({"op": "lit.ctxindent", "ctx": lean_ctx(ctx, dec), "depth": depth, "s": s, "_ctx": ctx, "_dec": dec})
+            for q, m in zip(creq, drv.batch_parallel([{k: v for k, v in q.items() if k[0] != "_"} for q in creq], jobs)):
+                pi = ctx_indent(q["_ctx"], q["depth"], q["_dec"])
+                if m.get("indent") != pi or m.get("guard_const") != (not string_defects(q["s"], pi, True)) \
+                        or m.get("guard_lang") != (not string_defects(q["s"], pi + 1, False)):
+                    tie("correspondence C04/context: Lean ctxIndent/Guard and the harness' context table disagree", {"channel": "ctx_indent", "case": q, "model": m})
+            stats["unit"]["ctxindent"] = len(creq)
+
+        # ---------------- end-to-end, whole parameter lists: several parameters per op, several ops per context -----
+        n_ops = 2000 if quick else 20000
+        mcases: list[dict] = []
+        L1 = {"t": "lang", "v": [["english", "Left"]]}
+        L2 = {"t": "lang", "v": [["english", "Right"], ["german", "Rechts"]]}
+        L3 = {"t": "lang", "v": [["german", "Ja\n "], ["french", "oui"]]}
+        S1 = {"t": "str", "v": "it's\n\"x\""}
+        F1 = {"t": "fixed", "whole": None, "fract": "05"}
+        P1 = {"t": "pos", "name": "m0", "xo": 2, "yo": 0, "xr": -1, "yr": 3}
+        for dec in ("exps", "ssbs"):
+            for depth in (0, 2):
+                mcases.append({"ops": [[L1, L2]], "ctx": "arg", "depth": depth, "dec": dec})
+                mcases.append({"ops": [[L1, S1, L3, F1, L2, P1]], "ctx": "arg", "depth": depth, "dec": dec})
+                mcases.append({"ops": [[L2, {"t": "int", "v": 3}, L1]], "ctx": "inlinectx", "depth": depth, "dec": dec})
+                mcases.append({"ops": [[L1, {"t": "str", "v": "a\nb"}, L3, F1]], "ctx": "switchhdr", "depth": depth, "dec": dec})
+                mcases.append({"ops": [[L2], [L1]], "ctx": "menu", "depth": depth, "dec": dec})
+                mcases.append({"ops": [[{"t": "str", "v": "x\n   "}], [L3]], "ctx": "menu", "depth": depth, "dec": dec})
+                mcases.append({"ops": [[{"t": "int", "v": 7}, L1], [{"t": "const", "v": "CONST"}, L2], [L3]], "ctx": "casetext", "depth": depth, "dec": dec})
+        for _ in range(n_ops):
+            mcases.append(gen_ops_case(r, r.choice(["arg", "arg", "arg", "inlinectx", "switchhdr", "menu", "casetext"]),
+                                       r.choice([0, 0, 1, 2, 3, 4]), r.choice(["exps", "ssbs"])))
+        mres = _pool_map(pool, "harness.impl_lit:e2e_ops_cases", mcases, 40, 300)
+        mreq: list[dict] = []
+        midx: list[tuple[int, int, int, int]] = []
+        for i, (c, res) in enumerate(zip(mcases, mres)):
+            key = f"oplist/{c['ctx']}/{c['dec']}"
+            stats["e2e"][key] = stats["e2e"].get(key, 0) + 1
+            nl = sum(1 for pl in c["ops"] for p in pl if p["t"] == "lang")
+            stats["e2e"][f"oplist_lang_strings_{min(nl, 3)}{'+' if nl >= 3 else ''}"] = stats["e2e"].get(f"oplist_lang_strings_{min(nl, 3)}{'+' if nl >= 3 else ''}", 0) + 1
+            if "__worker__" in res or "setup_err" in res:
+                tie("worker/setup failure in end-to-end case (parameter lists)", {"case": c, "impl": res})
+                continue
+            v = oracle_ops(c, res)
+            pi = ctx_indent(MCTX_SINGLE[c["ctx"]], c["depth"], c["dec"])
+            real_ind = [x for row in (res.get("indents") or []) for x in row if x is not None]
+            if any(x != pi for x in real_ind):
+                stats["e2e"]["indent_differs_from_context"] = stats["e2e"].get("indent_differs_from_context", 0) + 1
+                if not v:
+                    tie("correspondence C04/context: the decompiler prints a string at another indent than the context prescribes (model ctxIndent)",
+                        {"channel": "ctx_indent", "case": c, "printed_at": res.get("indents"), "prescribed": pi})
+            if v:
+                viol(v[0], v[1], {"channel": "e2e_ops", "case": c, "context_indent": pi,
+                                  "impl": {k: res.get(k) for k in ("indents", "back", "back_names", "comp_err", "dec_err")}})
+                continue
+            # model: every string printed at the indent the decompiler used is part of the text and reads back as predicted
+            for a, (pl, il) in enumerate(zip(c["ops"], res.get("indents") or [])):
+                for b, (p, ind) in enumerate(zip(pl, il)):
+                    if ind is None:
+                        continue
+                    if p["t"] == "str":
+                        mreq.append({"op": "lit.roundtrip", "s": p["v"], "indent": ind, "single": True, "rest": ", 1);\n"})
+                        midx.append((i, a, b, -1))
+                    elif p["t"] == "lang":
+                        for j, (_k, s) in enumerate(p["v"]):
+                            mreq.append({"op": "lit.roundtrip", "s": s, "indent": ind + 1, "single": False, "rest": ",\n"})
+                            midx.append((i, a, b, j))
+        if drv and mreq:
+            for (i, a, b, j), m in zip(midx, drv.batch_parallel(mreq, jobs)):
+                c, res = mcases[i], mres[i]
+                backp = res["back"][a][b]
+                got = backp.get("v") if j == -1 else (backp["v"][j][1] if backp.get("t") == "lang" and j < len(backp["v"]) else None)
+                if m.get("r") not in res["text"]:
+                    tie("correspondence C04/e2e: printed string of a parameter list differs from the model", {"channel": "e2e_ops", "case": c, "at": [a, b, j], "model": m})
+                elif not (m.get("guard") and m.get("exact") and m.get("v") == got):
+                    tie("correspondence C04/e2e: recompiled string of a parameter list differs from the model's prediction",
+                        {"channel": "e2e_ops", "case": c, "at": [a, b, j], "impl": backp, "model": m})
+        stats["e2e"]["oplist_cases"] = len(mcases)
+        stats["e2e"]["oplist_strings_vs_model"] = len(mreq)
 
         # ---------------- parse side: spellings -> real compilers -> spec value -----------------------------------
         pcases: list[dict] = []
@@ -721,13 +996,18 @@ def run(run: core.Run) -> int:
     if not prep["proofs_ok"] or not aud["ok"] or not prep["driver_ok"]:
         run.broken_tie("Lean obligations of C04 do not check (build/audit)", {"theorems": THEOREMS, "log": prep["log"][-3000:], "audit": aud})
     cov = core.proof_coverage(run, prep, aud, MODULES, THEOREMS, {
-        "evaluations": len(trip) + len(cases) + len(e2e) + len(pcases),
+        "evaluations": len(trip) + len(cases) + len(e2e) + len(mcases) + len(pcases),
         "distinct_nontrivial": core.distinct(s for s in strings if not string_defects(s, 1, True) and len(s) > 1),
         "rule": ("strings over an alphabet hitting every printer/reader branch (both quotes, both triple quotes, backslash, \\n \\r \\f \\v "
                  "\\x85 \\u2028, blanks before/after every line, blank-only lines, trailing newline, non-ASCII) plus all strings up to length "
                  f"{3 if quick else 5} over {EXH_ALPHABET!r}, each at indents 0-3 and both quote preferences (function level), and as real "
                  "parameters (ints, fixed point, constants, strings, language strings, position marks) through both real decompilers in every "
-                 "printing context at nesting depths 0-4 and back through both real compilers; literal spellings of every base/zero form; "
+                 "printing context (operation argument, inline-context argument, switch header, menu case header, message-switch text "
+                 "and key, case values) at nesting depths 0-4 and back through both real compilers, the defect class of a failing value "
+                 "decided at the indent the CONTEXT prescribes; whole parameter lists inside the guards (2-3 language strings with equal / "
+                 "overlapping / nested / disjoint language sets mixed with constant strings, fixed-point numbers, position marks, "
+                 "integers, constants; two menu cases; two text cases + default) in the same contexts through both routes; "
+                 "literal spellings of every base/zero form; "
                  "non-trivial = string of length > 1 inside the guards"),
         "samples": [trip[len(CORPUS_STRINGS) * 8 + 1][0], e2e[-1], pcases[0]] if len(trip) > len(CORPUS_STRINGS) * 8 + 1 and e2e and pcases else [],
         "generator_stats": stats, "correspondence_mismatches": mism, "oracle_violations": n_viol,
@@ -851,6 +1131,12 @@ def replay(run: core.Run, path: str) -> int:
         c = rp["case"]
         res = impl_lit.e2e_one(c)
         v = oracle_e2e(c, res)
+        if v:
+            bad.append(v)
+    elif ch == "e2e_ops":
+        c = rp["case"]
+        res = impl_lit.e2e_ops_one(c)
+        v = oracle_ops(c, res)
         if v:
             bad.append(v)
     elif ch == "parse":
